@@ -55,6 +55,18 @@ def look(t):
             return t
 
 
+def canon(t):
+    """look() applied at every level (and call-site ids dropped): two ways of reaching the same value through
+    references, as_ref/as_mut/deref adapters compare equal."""
+    if not isinstance(t, tuple) or not t:
+        return t
+    if isinstance(t[0], str):
+        t = look(t)
+        if t[0] == "call":
+            return ("call", t[1], tuple(canon(a) for a in t[2]))
+    return tuple(canon(x) if isinstance(x, tuple) else x for x in t)
+
+
 def transforms(t):
     """Last path segments of all calls / in-place mutators inside a term."""
     out = []
@@ -144,8 +156,100 @@ def ok_payload_source(t):
     return None
 
 
+def payload_of(t):
+    """X if the term t denotes the Some/Ok payload of X, however it was taken out: `X?`, `X.ok_or(e)?`,
+    `X.map_err(f)?`, or a `match`/`if let` binding ((X as Some).0); adapters that keep the payload are skipped.
+    None if t is not such a payload."""
+    t = look(t)
+    if t[0] == "payload":
+        x = look(t[1])
+    elif t[0] == "field" and t[3] == "0" and t[1][0] == "downcast" and t[1][2] in ("Some", "Ok"):
+        x = look(t[1][1])
+    else:
+        return None
+    while is_call(x, "ok_or", "ok_or_else", "map_err") and x[2] and x[1].split("::")[0] in ("std", "core"):
+        x = look(x[2][0])
+    return x
+
+
 def strip_map_err(t):
     t = look(t)
     while is_call(t, "map_err") and t[2]:
         t = look(t[2][0])
     return t
+
+
+def is_new_fn(name):
+    """A crate-local function that is not in the frozen list: introduced after the rules were written.
+    Such helpers are traversed inline at their call sites (paths.py) instead of being analysed alone."""
+    from ..paths import known_fns
+    return name not in known_fns()
+
+
+def known_callers(facts, target):
+    """Names of the *known* functions from which `target` is reached, looking through new helpers
+    (and through closures to the function that defines them)."""
+    out = set()
+    seen = set()
+    work = [target]
+    while work:
+        t = work.pop()
+        for f in facts.fns.values():
+            hit = False
+            for bb, term in f.calls():
+                c = term["callee"]
+                r = c.get("resolved")
+                p = r["path"] if r and r.get("local") else c.get("path")
+                if p == t:
+                    hit = True
+                    break
+            if not hit and not any(cl.name == t for cl in facts.closures_of(f.name)):
+                continue
+            name = f.name
+            if is_new_fn(name) and name not in seen:
+                seen.add(name)
+                work.append(name)
+            elif not is_new_fn(name):
+                out.add(name)
+    return out
+
+
+def has_callers(facts, name):
+    for f in facts.fns.values():
+        for bb, term in f.calls():
+            c = term["callee"]
+            r = c.get("resolved")
+            p = r["path"] if r and r.get("local") else c.get("path")
+            if p == name:
+                return True
+    return False
+
+
+def local_callee(term):
+    c = term["callee"]
+    r = c.get("resolved")
+    return r["path"] if r and r.get("local") else c.get("path")
+
+
+def reaches_via_new(facts, fn, target, _seen=None):
+    """Does `fn` call `target` directly or through helpers that are not in the frozen list?"""
+    seen = _seen if _seen is not None else set()
+    for bb, t in fn.calls():
+        p = local_callee(t)
+        if p == target:
+            return True
+        if p in facts.fns and is_new_fn(p) and p not in seen:
+            seen.add(p)
+            if reaches_via_new(facts, facts.fns[p], target, seen):
+                return True
+    return False
+
+
+def block_reaches(facts, fn, bb, target):
+    t = fn.blocks[bb]["term"]
+    if t["k"] != "call":
+        return False
+    p = local_callee(t)
+    if p == target:
+        return True
+    return p in facts.fns and is_new_fn(p) and reaches_via_new(facts, facts.fns[p], target)
